@@ -93,8 +93,9 @@ pub struct History {
     pub tcp: bool,
     pub ops: Vec<Op>,
     /// low nibble 0: the agent is built without a remote address; k: with remote_addr(peer(k-1)). The
-    /// remote address is informational: it has no bearing on where transmissions go. High nibble:
-    /// which local address the agent is built with (`local_addr_of`).
+    /// remote address is informational: it has no bearing on where transmissions go. Bits 4-5:
+    /// which local address the agent is built with (`local_addr_of`). Bit 6: the history is based
+    /// an hour in the past instead of just ahead of the real clock.
     #[serde(default)]
     pub remote: u8,
 }
@@ -128,7 +129,7 @@ pub fn local_addr() -> SocketAddr {
 /// the agent's own address as selected by the high nibble of `History::remote`: IPv4, global IPv6,
 /// link-local IPv6 on a zone (scope id 5), IPv4-mapped IPv6
 pub fn local_addr_of(remote: u8) -> SocketAddr {
-    match (remote >> 4) % 4 {
+    match (remote >> 4) & 3 {
         0 => local_addr(),
         1 => "[2001:db8::1]:3478".parse().unwrap(),
         2 => SocketAddr::V6(std::net::SocketAddrV6::new("fe80::1".parse().unwrap(), 3478, 0, 5)),
@@ -356,9 +357,23 @@ pub struct BuiltRequest {
 
 /// Build the message for a Send op through the library's builder and hand both the builder and
 /// its serialisation (captured before the send) to `f`.
+/// what a Send op's `seal` amounts to for this payload: a request too large for its body to be
+/// described by the 16-bit length field cannot be sealed (sealing rewrites that field) and goes out
+/// unsealed, without FINGERPRINT
+pub fn effective_seal(seal: u8, payload: u16) -> u8 {
+    if payload & 0xC000 == 0x4000 && (payload as u8 >> 5) >= 3 {
+        0
+    } else {
+        seal % 4
+    }
+}
+
 fn with_request<R>(id: u128, class: u8, seal: u8, payload: u16, f: impl FnOnce(MessageBuilder<'_>, Vec<u8>) -> R) -> R {
     // high byte: a request with many attributes (bit 15 set: the count in bits 8..14)
     let many = if payload & 0x8000 != 0 { ((payload >> 8) & 0x3f) as usize } else { 0 };
+    let big = payload & 0xC000 == 0x4000;
+    let seal = effective_seal(seal, payload);
+    let oversize = big && (payload as u8 >> 5) >= 3;
     let payload = payload as u8;
     let software = Software::new(&format!("vp-{}", payload)).unwrap();
     let prio = Priority::new(0x6e00_0000 | payload as u32);
@@ -378,7 +393,21 @@ fn with_request<R>(id: u128, class: u8, seal: u8, payload: u16, f: impl FnOnce(M
     if payload >= 128 {
         b.add_raw_attribute(RawAttribute::new(AttributeType::new(0xC057), &raw_val)).unwrap();
     }
-    let many_vals: Vec<Vec<u8>> = (0..many).map(|i| vec![i as u8 ^ payload; (i + payload as usize) % 6]).collect();
+    let mut many_vals: Vec<Vec<u8>> = (0..many).map(|i| vec![i as u8 ^ payload; (i + payload as usize) % 6]).collect();
+    if big {
+        // a large request: around an MTU, around the 16-bit limits of the length field / of the
+        // whole message, and beyond them (the builder serialises such messages; whatever it
+        // serialises is what must be transmitted)
+        let target = [1_400usize, 1_500, 9_000, 65_500, 65_540, 65_600, 70_420, 131_100][(payload >> 5) as usize];
+        let mut left = target;
+        let mut k = 0usize;
+        while left > 0 {
+            let l = left.min(16_000 + (payload as usize & 3));
+            many_vals.push((0..l).map(|j| (j as u8).wrapping_mul(31) ^ payload ^ k as u8).collect());
+            left -= l;
+            k += 1;
+        }
+    }
     for (i, v) in many_vals.iter().enumerate() {
         b.add_raw_attribute(RawAttribute::new(AttributeType::new(0xC100 + i as u16 * 3), v)).unwrap();
     }
@@ -392,7 +421,7 @@ fn with_request<R>(id: u128, class: u8, seal: u8, payload: u16, f: impl FnOnce(M
         }
         _ => {}
     }
-    if payload % 7 == 3 {
+    if payload % 7 == 3 && !oversize {
         b.add_fingerprint().unwrap();
     }
     let bytes = b.clone().build();
@@ -553,6 +582,8 @@ fn sub_ms(origin: Instant, t: Instant) -> i128 {
 impl<'h> Interp<'h> {
     pub fn new(h: &'h History, origin: Instant) -> Self {
         let transport = if h.tcp { TransportType::Tcp } else { TransportType::Udp };
+        // bit 6 of `remote`: the whole history is based in the past instead of just ahead of the real clock
+        let origin = if h.remote & 0x40 != 0 && origin == process_origin() { process_origin_past() } else { origin };
         Interp {
             h,
             origin,
@@ -791,7 +822,7 @@ impl<'h> Interp<'h> {
                     let mut tx = Tx {
                         bytes,
                         dest,
-                        had_integrity: seal % 4 != 0,
+                        had_integrity: effective_seal(seal, payload) != 0,
                         timing: default_timing(self.model.tcp, now),
                         send_cancelled: false,
                         recv_cancelled: false,
@@ -1615,6 +1646,17 @@ pub fn process_origin() -> Instant {
     *O.get_or_init(|| Instant::now() + Duration::from_secs(2))
 }
 
+/// an origin well behind the real clock (an hour if the machine has been up that long): Instants
+/// are opaque inputs, and a history that lies in the past is as good as one in the future. A hidden
+/// read of the real clock inside the agent (`Instant::now()`, `elapsed()`) shows up on one side only.
+pub fn process_origin_past() -> Instant {
+    static O: std::sync::OnceLock<Instant> = std::sync::OnceLock::new();
+    *O.get_or_init(|| {
+        let base = process_origin();
+        [3_600u64, 900, 120, 45, 10].iter().find_map(|s| base.checked_sub(Duration::from_secs(*s))).unwrap_or(base)
+    })
+}
+
 pub fn run_history(h: &History) -> Result<Summary, Disc> {
     Interp::new(h, process_origin()).run()
 }
@@ -1742,6 +1784,7 @@ pub fn payload_strategy() -> BoxedStrategy<u16> {
         12 => any::<u8>().prop_map(|p| p as u16),
         2 => (any::<u8>(), 1u16..64).prop_map(|(p, n)| 0x8000 | (n << 8) | p as u16),
         1 => (any::<u8>(), proptest::sample::select(vec![7u16, 8, 9, 15, 16, 17, 19, 20, 21, 31, 32, 33, 63])).prop_map(|(p, n)| 0x8000 | (n << 8) | p as u16),
+        1 => any::<u8>().prop_map(|p| 0x4000 | p as u16),
     ]
     .boxed()
 }
@@ -1833,8 +1876,8 @@ pub fn op_strategy(p: Profile) -> BoxedStrategy<Op> {
 }
 
 pub fn history_strategy(p: Profile, max_ops: usize) -> BoxedStrategy<History> {
-    (prop_oneof![3 => Just(false), 1 => Just(true)], vec(op_strategy(p), 0..=max_ops), prop_oneof![3 => Just(0u8), 1 => 1u8..=N_PEERS], prop_oneof![5 => Just(0u8), 1 => 1u8..4])
-        .prop_map(|(tcp, ops, remote, local)| History { tcp, ops, remote: remote | (local << 4) })
+    (prop_oneof![3 => Just(false), 1 => Just(true)], vec(op_strategy(p), 0..=max_ops), prop_oneof![3 => Just(0u8), 1 => 1u8..=N_PEERS], prop_oneof![5 => Just(0u8), 1 => 1u8..4], prop_oneof![3 => Just(0u8), 1 => Just(0x40u8)])
+        .prop_map(|(tcp, ops, remote, local, past)| History { tcp, ops, remote: remote | (local << 4) | past })
         .boxed()
 }
 
